@@ -171,6 +171,19 @@ pub fn build(raw: &Raw, _tier: Tier, _sched: bool) -> Scenario {
         acts.push(a);
         b.s.threads[th].push(Op::Dispatch { act: a, via: via_of(r) });
     }
+    // half of the cases: a second client keeps handing tasks to the store while the actions run
+    // (the pool is busy with foreign work when the effects the middlewares left are handed over)
+    if knob(raw, 3) % 2 == 0 {
+        let t2 = b.thread();
+        let n = 2 + pick(knob(raw, 4), 6);
+        for i in 0..n {
+            let e = b.eff(EffKind::Task, false, stall_of(knob(raw, 5).wrapping_add(i as u16 * 3)));
+            b.s.threads[t2].push(Op::DispatchTask { store: s, eff: e });
+            if i % 2 == 1 {
+                b.s.threads[t2].push(Op::Stall(stall_of(knob(raw, 6).wrapping_add(i as u16))));
+            }
+        }
+    }
     // follow-ups are counted through the subscriber's notifications: with a late subscriber
     // only the sentinel can be awaited (follow-ups may be notified before it arrives)
     let n = if late.is_some() { 0 } else { expected_followups(&b.s, s, &acts) };
@@ -243,7 +256,7 @@ pub fn check(scn: &Scenario, h: &History) -> Outcome {
 
 pub static PROFILE: Profile = Profile {
     id: "C12",
-    rule: "enumeration: every assignment of {Continue,Done,Break,Err} to the 3 hooks of m middlewares for one action (m=1,2 quick: 64+4096; m=3 thorough: 262144), 64 assignments per store so state carries over, every third store without any subscriber until the closing sentinel; plus proptest scenarios: 1-3 middlewares, up to 12/24 actions with independent verdicts per (action,hook), effect-removal masks, Dispatch/Keep answers, effects of every kind incl. follow-up actions (awaited before stop), a third of the stores without any subscriber until the closing sentinel. Non-trivial = the scenario contains at least one action with a non-Continue verdict or an effect removal; distinct by scenario hash.",
+    rule: "enumeration: every assignment of {Continue,Done,Break,Err} to the 3 hooks of m middlewares for one action (m=1,2 quick: 64+4096; m=3 thorough: 262144), 64 assignments per store so state carries over, every third store without any subscriber until the closing sentinel; plus proptest scenarios: 1-3 middlewares, up to 12/24 actions with independent verdicts per (action,hook), effect-removal masks, Dispatch/Keep answers, effects of every kind incl. follow-up actions (awaited before stop), a third of the stores without any subscriber until the closing sentinel, half of the cases with a second client handing tasks to the store meanwhile. Non-trivial = the scenario contains at least one action with a non-Continue verdict or an effect removal; distinct by scenario hash.",
     raw,
     build,
     check,
